@@ -96,7 +96,7 @@ RemoveRemoves ==
 Emit == PrintT(ToJson(
    IF tc.kind = "walk"
      THEN [kind |-> "walk", g |-> GraphOf(tc), sel |-> tc.sel, path |-> <<>>, op |-> tc.op, cp |-> FALSE,
-           path2 |-> <<>>, op2 |-> tc.op2, ok |-> TRUE, result |-> WT(E0, tc.sel), seen |-> Nil]
+           path2 |-> <<>>, op2 |-> tc.op2, ok |-> TRUE, result |-> WT(E0, tc.sel), result2 |-> WT2(E0, tc.sel), seen |-> Nil]
      ELSE [kind |-> tc.kind, g |-> Graphs[tc.gi], sel |-> SMatch, path |-> tc.path, op |-> tc.op, cp |-> tc.cp,
            path2 |-> tc.path2, op2 |-> tc.op2, ok |-> R2.ok, result |-> IF R2.ok THEN R2.v ELSE Nil,
            seen |-> At(E0, tc.path)]))
